@@ -153,6 +153,8 @@ def gen_case(rng, tier, kind=None, N=None, nc=None):
         # iterators (concatenation of mapped bags, generator partitions). ISV/JFA take len() of
         # every partition and refuse iterators, so only the i-vector trainer is given them.
         "stats_layout": rng.choice([None, None, None, "fortran", "stacked", "strided"]),
+        "failed_first": rng.choice([None] * 9 + [0, 1, 2, 3, 5, 8, 13, 21, 34]),
+        "failed_first_same_machine": rng.random() < 0.6,
         "bagform": (rng.choice(["plain", "plain", "concat_mapped", "generator", "mapped",
                                 "from_delayed", "repartitioned", "filtered"])
                     if kind == "ivector" else
@@ -453,11 +455,23 @@ def _fit_list(case):
     return _params(case["kind"], m)
 
 
-def _fit_bag(case):
-    m = _make(case)
-    stats = _mk_stats(case)
-    _pre(case, m, stats, True)
-    bag = _bag(case, stats)
+def _fit_bag(case, carry=None):
+    carry = carry if carry is not None else {}
+    m = carry.pop("m", None)
+    stats = carry.pop("stats", None) or _mk_stats(case)
+    if m is None:
+        m = _make(case)
+        _pre(case, m, stats, True)
+    bag = carry.pop("bag", None)
+    if bag is None:
+        bag = _bag(case, stats)
+    if "keep" in carry:
+        carry["stats"] = stats
+        if carry["keep"] == "machine_too":
+            carry["m"] = m  # fit() re-initialises: the same machine object is trained again
+        if case.get("bagform", "plain") not in ("generator", "concat_mapped"):
+            carry["bag"] = bag  # (single-pass partitions cannot be read a second time)
+        del carry["keep"]
     if case["kind"] == "ivector":
         m.fit(bag)
     else:
@@ -507,9 +521,57 @@ def run_case(case, replay=None):
         sched = dict(sched, mode="shared")
         xmodes = False
 
+    carry = {}
+    if case.get("failed_first") is not None:
+        # a first training attempt fails in a task; the caller catches the exception and
+        # trains a new machine from the same statistics objects (and the same bag)
+        from ..sim import InjectedTaskFailure
+        # (the i-vector trainer re-draws its start from the process-wide generator at every
+        # fit: it is retried with a new machine)
+        carry["keep"] = "machine_too" if case.get("failed_first_same_machine") \
+            and kind in ("isv", "jfa") else True
+
+        def first():
+            with np.errstate(all="ignore"):
+                _fit_bag(case, carry)
+        try:
+            rec.run(dict(sched, fail_after=case["failed_first"]), first, np_seed=case["np_seed"],
+                    label="failed")
+            rec.probe("first_attempt_finished_before_the_failure_point")
+        except InjectedTaskFailure:
+            rec.probe("first_attempt_failed_then_retried")
+        except HarnessError:
+            raise
+        except Exception:
+            pass
+        carry.pop("keep", None)
+        if "m" in carry:
+            # ISV / JFA continue from the state the machine is in: the reference for the
+            # retry is the in-memory training of a copy of the machine as the failed attempt
+            # left it, on copies of the same statistics
+            import copy as _copy
+            try:
+                with dask.config.set(scheduler="synchronous"), np.errstate(all="ignore"):
+                    ref_m = _copy.deepcopy(carry["m"])
+                    ref_m.fit(_copy.deepcopy(carry["stats"]), _labels(case, False))
+                    mem, mem_exc = _params(kind, ref_m), None
+            except Exception as e:
+                mem_exc = e
+            rec.probe("same_machine_retrained_after_failed_attempt")
+            snap = (_copy.deepcopy(carry["m"]), _copy.deepcopy(carry["stats"]))
+        else:
+            snap = None
+    else:
+        snap = None
+
     def go():
         with np.errstate(all="ignore"):
-            return _fit_bag(case)
+            if snap is not None and "m" not in carry:
+                # (further executor models start from the same post-failure state)
+                import copy as _copy2
+                return _fit_bag(case, {"m": _copy2.deepcopy(snap[0]),
+                                       "stats": _copy2.deepcopy(snap[1])})
+            return _fit_bag(case, carry)
 
     try:
         d = rec.run(sched, go, np_seed=case["np_seed"], label="bag")
